@@ -896,7 +896,26 @@ def b_sorted(interp, st, args, kwargs):
     xs = interp.iterate(st, args[0])
     if all(isinstance(x, (int, str, Fraction)) for x in xs) and "key" not in kwargs:
         return st.alloc(sorted(xs, reverse=bool(kwargs.get("reverse", False))), "list")
-    raise Unsupported("sorted of symbolic values")
+    # stable sort of a concrete-length list with (possibly symbolic) numeric keys: insertion sort whose
+    # comparisons are decided by the path explorer (one path per feasible order)
+    keyf = kwargs.get("key")
+    rev = bool(st.deref(kwargs.get("reverse", False)))
+    keys = [st.deref(interp.call(st, keyf, [x], {})) if keyf is not None else st.deref(x) for x in xs]
+    if not all(T.is_num(k) for k in keys):
+        raise Unsupported("sorted with non-numeric keys")
+    out = []      # list of (key, item), kept in final order
+    for k, x in zip(keys, xs):
+        pos = len(out)
+        # stable: the new element goes after every element that does not have to come after it
+        while pos > 0:
+            kp = out[pos - 1][0]
+            before = T.cmp(">", kp, k) if not rev else T.cmp("<", kp, k)   # must the earlier element move behind the new one?
+            if interp.truth(st, before):
+                pos -= 1
+            else:
+                break
+        out.insert(pos, (k, x))
+    return st.alloc([x for _, x in out], "list")
 
 
 @reg("builtins.round", True)
@@ -1007,6 +1026,15 @@ def b_hasattr(interp, st, args, kwargs):
 @reg("builtins.getattr", True)
 def b_getattr(interp, st, args, kwargs):
     return interp.getattr(st, args[0], st.deref(args[1]))
+
+
+@reg("builtins.setattr", True)
+def b_setattr(interp, st, args, kwargs):
+    name = st.deref(args[1])
+    if not isinstance(name, str):
+        raise Unsupported("setattr with a non-concrete attribute name")
+    interp.setattr(st, args[0], name, args[2])
+    return None
 
 
 @reg("builtins.super", True)
